@@ -152,6 +152,12 @@ func (db *DB) recover() error {
 		segments[i].meta.Full = true
 	}
 
+	// Make the newest segment the current one.
+	// It holds the tail written before the crash, Sync has to reach it.
+	if err := db.datalog.swapSegment(); err != nil {
+		return err
+	}
+
 	if err := removeRecoveryBackupFiles(db.opts.FileSystem); err != nil {
 		logger.Printf("error removing recovery backups files: %v", err)
 	}
